@@ -20,10 +20,41 @@ type FormulaOpts struct {
 	// related to them (same names in another order, same first/last name and size with other inner names):
 	// groups that need auxiliary variables must not get theirs mixed up.
 	Groups *[][]string
+	// Shared remembers the sub-formulas built so far; when non-nil, a position may reuse one of them: the
+	// same object then occurs at several places of the formula (often as first operand / premise).
+	Shared *[]*oracle.F
 }
 
 // Formula draws a formula tree. pol is the polarity of the position: +1, -1 or 0 (both).
 func Formula(t *rapid.T, o FormulaOpts, depth, pol int) *oracle.F {
+	if o.Shared != nil && depth > 0 && len(*o.Shared) > 0 && Chance(t, 1, 5, "reuse") {
+		g := (*o.Shared)[Uniform(t, 0, len(*o.Shared)-1, "whichShared")]
+		big := false
+		g.Walk(1, func(h *oracle.F, _ int) {
+			if h.Op == "unique" && len(h.Kids) > 4 {
+				big = true
+			}
+		})
+		if !(o.BigGroupsPos && big) {
+			if g.Tag == "" {
+				g.Tag = fmt.Sprintf("s%d", len(*o.Shared)*7+depth)
+				for _, h := range *o.Shared { // keep tags distinct
+					if h != g && h.Tag == g.Tag {
+						g.Tag += "x"
+					}
+				}
+			}
+			return oracle.Ref(g)
+		}
+	}
+	f := formula(t, o, depth, pol)
+	if o.Shared != nil && f.Op != "var" && f.Op != "true" && f.Op != "false" && f.Op != "ref" {
+		*o.Shared = append(*o.Shared, f)
+	}
+	return f
+}
+
+func formula(t *rapid.T, o FormulaOpts, depth, pol int) *oracle.F {
 	leaf := depth >= o.MaxDepth || (depth > 0 && Chance(t, 1, 4, "leaf"))
 	if leaf {
 		switch rapid.IntRange(0, 9).Draw(t, "leafKind") {
@@ -54,6 +85,29 @@ func Formula(t *rapid.T, o FormulaOpts, depth, pol int) *oracle.F {
 		}
 		f := &oracle.F{Op: op}
 		for i := 0; i < k; i++ {
+			if i == 0 && o.Shared != nil && k >= 2 && Chance(t, 1, 3, "sameOpFirst") {
+				// first operand = an object of the same connective built earlier (a caller extending a shared
+				// disjunction / conjunction with one more operand, several times)
+				var same []*oracle.F
+				for _, g := range *o.Shared {
+					if g.Op == op && len(g.Kids) >= 2 {
+						same = append(same, g)
+					}
+				}
+				if len(same) > 0 {
+					g := same[Uniform(t, 0, len(same)-1, "whichSame")]
+					if g.Tag == "" {
+						g.Tag = fmt.Sprintf("o%d", len(*o.Shared)*7+depth)
+						for _, h := range *o.Shared {
+							if h != g && h.Tag == g.Tag {
+								g.Tag += "x"
+							}
+						}
+					}
+					f.Kids = append(f.Kids, oracle.Ref(g))
+					continue
+				}
+			}
 			f.Kids = append(f.Kids, Formula(t, o, depth+1, pol))
 		}
 		return f
